@@ -447,15 +447,38 @@ func (w *world) scanOnce(setState bool) scanObs {
 	return obs
 }
 
+// slowLimit: how much real time a scan may take before its real-clock tolerances (taint stamp within 3 s, margins of
+// 3 s around lock / max_node_age / lastScaleOut comparisons) are in doubt: 1.5 s, plus 2.5 s per fleet-mode group.
+func slowLimit(s *scanSpec) time.Duration {
+	d := 1500 * time.Millisecond
+	for _, a := range s.Cloud {
+		if a.Template != "" {
+			d += 2500 * time.Millisecond
+		}
+	}
+	return d
+}
+
+var slowRetries int
+
 func runScanSpec(s *scanSpec) (scanObs, error) {
 	scanMu.Lock()
 	defer scanMu.Unlock()
-	s.rebase(time.Now().Unix())
-	w, err := newWorld(s)
-	if err != nil {
-		return scanObs{}, err
+	for attempt := 0; ; attempt++ {
+		t0 := time.Now()
+		s.rebase(t0.Unix())
+		w, err := newWorld(s)
+		if err != nil {
+			return scanObs{}, err
+		}
+		obs := w.scanOnce(true)
+		// a stalled process (machine under load) breaks the harness's own timing assumptions: run the case again
+		if time.Since(t0) > slowLimit(s) && attempt < 4 {
+			slowRetries++
+			continue
+		}
+		return obs, nil
 	}
-	return w.scanOnce(true), nil
 }
 
 // ---------- emission ----------
